@@ -342,6 +342,48 @@ example : useStreams [] = .error .runtimeError ∧ useStreams [.enter, .exit] = 
     ∧ transportGetStreams [.enter, .exit] = .error .runtimeError ∧ ctorCheck false true = .error .valueError :=
   ⟨rfl, rfl, rfl, rfl⟩
 
+/-! ## Several connections, and other users of the serialiser, in one process -/
+
+/-- **Instances are independent.**  Outbound items of several live connections put on their write
+streams in any alternation (equal ids, equal messages …): the child of connection `i` receives exactly
+the sends of connection `i`'s own items, in order — one line each, whatever the others do (an
+unserialisable object on one connection costs the others nothing). -/
+theorem c06_instances_independent (st : Style) (items : List (Nat × Outbound)) :
+    ∀ (pipes : Nat → List (List Nat)) (i : Nat),
+      playTagged st pipes items i = pipes i ++ sendsTagged st items i := by
+  induction items with
+  | nil => intro pipes i; simp [playTagged, sendsTagged, sends]
+  | cons p rest ih =>
+    intro pipes i
+    obtain ⟨j, it⟩ := p
+    simp only [playTagged]
+    rw [ih]
+    by_cases hij : i = j
+    · subst hij
+      cases hs : ser st it <;> simp [sendsTagged, sends, List.filterMap_cons, hs]
+    · have hji : ¬ j = i := fun e => hij e.symm
+      simp [sendsTagged, sends, List.filterMap_cons, hij, hji]
+
+/-- **What the process serialised before does not matter.**  Other calls of the serialiser between the
+writer's messages — with `indent`, `sort_keys`, anything — leave the child's bytes exactly those of the
+messages alone: the serialiser keeps nothing between calls.  (The correspondence run performs such
+calls in the same process before and between writer scenarios.) -/
+theorem c06_history_irrelevant (st : Style) (calls : List Call) :
+    playCalls st calls = sends st (messagesOf calls) := by
+  induction calls with
+  | nil => rfl
+  | cons c rest ih =>
+    cases c with
+    | dumps kw v => simpa [playCalls, messagesOf] using ih
+    | message it =>
+      simp only [playCalls, messagesOf, ih, sends, List.filterMap_cons]
+      cases ser st it <;> simp
+
+example : playTagged orjsonStyle (fun _ => [])
+    [(0, .raw ['a']), (1, .unserialisable), (1, .raw ['b']), (0, .raw ['c'])] 0 = [[97, 10], [99, 10]]
+    ∧ playCalls orjsonStyle [.dumps ⟨true, true⟩ (.obj []), .message (.raw ['a']), .dumps ⟨true, false⟩ .null, .message (.raw ['b'])]
+        = [[97, 10], [98, 10]] := by decide
+
 /-! ## Non-vacuity: a dict whose string holds LF, CR, U+2028, NUL, a quote and U+1F600, a typed
 request with `params` absent and one with a nested null, an unserialisable object, a pre-serialised
 line -/
